@@ -314,7 +314,10 @@ theorem members_covered :
       m ∈ ["eval", "init", "parametric", "associative", "penalty_nvi", "display"] := by decide
 
 theorem flags_spec :
-    GenNum.flags = [("number", "parametric", true), ("add", "associative", true), ("mul", "associative", true)] := by
+    GenNum.flags = [("number", "parametric", true), ("add", "associative", true), ("mul", "associative", true)] ∧
+    -- the four-term comparison penalty (it reads four argument rows) is attached to the four-argument
+    -- conditionals only
+    GenNum.penalties = ["ife", "ifl"] := by
   decide
 
 set_option exponentiation.threshold 2048
